@@ -212,7 +212,7 @@ class C13(Prop):
     id = "C13"
     prop_file = "Props/C13.v"
     rule = ("histories of 3-16 operations (subscribe / subscribe_once / unsubscribe / dispatch task / resume a suspended callback / get with "
-            "and without timeout / advance the clock) on 1-2 names with callbacks suspending 0..2 times and returning None or value+d (d of either sign, "
+            "and without timeout / advance the clock) on 1-2 names (the same callback may be subscribed to a name more than once) with callbacks suspending 0..2 times and returning None or value+d (d of either sign, "
             "dispatched values chosen so that returned values of 0 and negative values are frequent); "
             "overlapping dispatches arise from suspended callbacks; `burst` histories: synchronous blocks of subscription changes and "
             "dispatch_nowait() calls with no yield in between (the tasks start afterwards, in call order).  "
@@ -235,8 +235,8 @@ class C13(Prop):
             n = rng.choice(names)
             if r < 0.18:
                 c = rng.randrange(ncb)
-                if [0, c] in subs[n]:
-                    continue
+                if [0, c] in subs[n] and rng.random() < 0.5:
+                    continue            # (the same callback subscribed twice to one name is awaited twice: kept in half of the cases)
                 ops.append([0, n, c]); subs[n].append([0, c])
             elif r < 0.34:
                 c = rng.randrange(ncb)
@@ -274,7 +274,7 @@ class C13(Prop):
                 r, n = rng.random(), rng.choice(names)
                 if r < 0.25:
                     c = rng.randrange(ncb)
-                    if [0, c] in subs[n]:
+                    if [0, c] in subs[n] and rng.random() < 0.5:
                         continue
                     block.append([0, n, c]); subs[n].append([0, c])
                 elif r < 0.4:
@@ -305,7 +305,7 @@ class C13(Prop):
         ncb = rng.randrange(1, 3)
         script = [[rng.choice([0, 0, 1]), rng.choice([[], [1], [10]])] for _ in range(ncb)]
         ops, n = [], 0
-        if rng.random() < 0.5:
+        for _ in range(rng.choice([0, 1, 1, 2])):
             ops.append([0, n, rng.randrange(ncb)])
         for _ in range(rng.randrange(2, 5)):
             ops.append([5, n, rng.choice([[], [5], [5], [10]])])
